@@ -8,6 +8,8 @@
 //!   nonint  : `id ok det=<0|1> mask_pt=<0|1> mask_sk=<0|1> xe_masks=<0|1> xe_body=<0|1>`
 //!             det: same inputs twice → identical bytes; mask_pt / mask_sk: other plaintext / other secret, same xa →
 //!             identical masks; xe_masks: other error seed → identical masks; xe_body: … and different bodies
+//!   keys    : `id ok cells= size= sk= skin= sklwein= sklweout= pt= words=<raw u64> e=<error limbs per cell;…> obj=<cell/cell…>` — one key of
+//!             layout gglwe|ggsw|ksk|atk|tsk|g2g|lksk|g2l|l2g with everything the Lean model needs to recompute it (C01 key generation tie)
 //!   stats   : `id ok m=<count> sum=<Σe> sumsq=<Σe²> maxabs=<max|e|> scale=<log2 scale> limb=<limb>` over `reps` objects, `e` = the
 //!             integer error read off the exact phase (harness-side i128 arithmetic)
 use std::io::{BufRead, Write};
@@ -15,19 +17,20 @@ use std::io::{BufRead, Write};
 use crate::enc_common::*;
 use poulpy_core::{
     EncryptionLayout, GGLWEEncryptSk, GGLWEToGGSWKeyEncryptSk, GGSWEncryptSk, GLWEAutomorphismKeyEncryptSk, GLWEEncryptSk,
-    GLWEEncryptPk, GLWEPublicKeyGenerate, GLWESwitchingKeyEncryptSk, GLWETensorKeyEncryptSk, LWEEncryptSk,
+    GLWEEncryptPk, GLWEPublicKeyGenerate, GLWESwitchingKeyEncryptSk, GLWETensorKeyEncryptSk, GLWEToLWESwitchingKeyEncryptSk, LWEEncryptSk,
+    LWESwitchingKeyEncrypt, LWEToGLWESwitchingKeyEncryptSk,
     layouts::{
         Base2K, Degree, Dnum, Dsize, GGLWE, GGLWELayout, GGLWEToGGSWKey, GGLWEToRef, GGSW, GGSWLayout, GLWE, GLWEAutomorphismKey,
         GLWELayout, GLWEPlaintext, GLWEPublicKey, GLWEPublicKeyPreparedFactory, GLWESecret, GLWESecretPreparedFactory, GLWESwitchingKey, GLWETensorKey,
-        GLWEToMut, GLWEToRef,
+        GLWEToLWEKey, GLWEToMut, GLWEToRef, LWESwitchingKey, LWEToGLWEKey,
         LWE, LWELayout, LWEPlaintext, LWESecret, Rank, TorusPrecision,
     },
 };
 use poulpy_cpu_avx::{FFT64Avx, NTT120Avx};
 use poulpy_cpu_ref::{FFT64Ref, NTT120Ref};
 use poulpy_hal::{
-    api::{ModuleNew, ScratchOwnedAlloc, ScratchOwnedBorrow, VecZnxAutomorphism},
-    layouts::{GaloisElement, Module, NoiseInfos, ScalarZnx, ScratchOwned, ZnxInfos, ZnxView, ZnxViewMut},
+    api::{ModuleNew, ScratchOwnedAlloc, ScratchOwnedBorrow, VecZnxAddNormal, VecZnxAutomorphism},
+    layouts::{GaloisElement, Module, NoiseInfos, ScalarZnx, ScratchOwned, VecZnx, ZnxInfos, ZnxView, ZnxViewMut},
     source::Source,
 };
 
@@ -311,12 +314,190 @@ fn same_bodies(a: &[Cell], b: &[Cell]) -> bool {
     })
 }
 
+macro_rules! keys_backend {
+    ($fname:ident, $be:ty) => {
+        /// `keys` op: one key of the requested layout with everything the Lean model needs to recompute it bit for bit:
+        /// secrets, the raw words of Source::new(seed_xa), the error polynomials of Source::new(seed_xe) in loop order, and all cells
+        /// in loop order.  Layouts: gglwe ggsw ksk atk tsk g2g lksk (LWE switching) g2l (GLWE->LWE) l2g (LWE->GLWE).
+        fn $fname(lay: &str, t: &[&str]) -> String {
+            type BE = $be;
+            let n = kv_us(t, "n");
+            let b = kv_us(t, "b");
+            let k = kv_us(t, "k");
+            let kxe = kv_us(t, "kxe");
+            let rank = kv_us(t, "rank").max(1);
+            let rank_in = if kv(t, "rank_in").is_some() { kv_us(t, "rank_in") } else { rank };
+            let dnum = kv_us(t, "dnum").max(1);
+            let dsize = kv_us(t, "dsize").max(1);
+            let p = kv(t, "p").and_then(|v| v.parse::<i64>().ok()).unwrap_or(3);
+            let (nl_in, nl_out) = (kv_us(t, "nlin"), kv_us(t, "nlout"));
+            let (sxs, sxa, sxe) = (kv_u64(t, "sxs"), kv_u64(t, "sxa"), kv_u64(t, "sxe"));
+            let dist = parse_dist(kv(t, "dist").unwrap_or("tp:0.5"));
+            let module: Module<BE> = Module::<BE>::new(n as u64);
+            let noise = NoiseInfos::new(kxe, 3.2, 19.2).unwrap();
+            let mut scratch: ScratchOwned<BE> = ScratchOwned::alloc(1 << 24);
+            let size = k.div_ceil(b);
+            let (deg, bk, tk) = (Degree(n as u32), Base2K(b as u32), TorusPrecision(k as u32));
+            let mut xe = Source::new(seed32(sxe));
+            let mut xa = Source::new(seed32(sxa));
+            let mut src_s = Source::new(seed32(sxs));
+            let mut sk = GLWESecret::alloc(deg, Rank(rank as u32));
+            fill_glwe_secret(&mut sk, dist, &mut src_s);
+            let mut sk_in = GLWESecret::alloc(deg, Rank(rank_in as u32));
+            fill_glwe_secret(&mut sk_in, dist, &mut src_s);
+            let mut src_r = Source::new(seed32(sxs));
+            let sk_vis = replay_secret(n, rank, dist, &mut src_r);
+            let sk_in_vis = replay_secret(n, rank_in, dist, &mut src_r);
+            let mut sk_lwe_in = LWESecret::alloc(Degree(nl_in.max(1) as u32));
+            fill_lwe_secret(&mut sk_lwe_in, dist, &mut Source::new(seed32(sxs ^ 0x1111)));
+            let mut sk_lwe_out = LWESecret::alloc(Degree(nl_out.max(1) as u32));
+            fill_lwe_secret(&mut sk_lwe_out, dist, &mut Source::new(seed32(sxs ^ 0x2222)));
+            let mut skp = module.glwe_secret_prepared_alloc(Rank(rank as u32));
+            module.glwe_secret_prepare(&mut skp, &sk);
+            let mut pt = ScalarZnx::alloc(n, rank_in.max(1));
+            if let Some(s) = kv(t, "pt") {
+                for (c, col) in s.split(';').enumerate() {
+                    if c < pt.cols() && col != "-" {
+                        for (i, x) in col.split(',').enumerate() {
+                            if i < n {
+                                pt.at_mut(c, 0)[i] = x.parse().unwrap();
+                            }
+                        }
+                    }
+                }
+            }
+            let gl = |rin: usize, rout: usize, ds: usize| GGLWELayout {
+                n: deg,
+                base2k: bk,
+                k: tk,
+                rank_in: Rank(rin as u32),
+                rank_out: Rank(rout as u32),
+                dnum: Dnum(dnum as u32),
+                dsize: Dsize(ds as u32),
+            };
+            let ggsw_layout = GGSWLayout { n: deg, base2k: bk, k: tk, rank: Rank(rank as u32), dnum: Dnum(dnum as u32), dsize: Dsize(dsize as u32) };
+            let mut cells: Vec<String> = Vec::new();
+            let push_gglwe = |cells: &mut Vec<String>, g: &GGLWE<&[u8]>, rin: usize| {
+                for col in 0..rin {
+                    for row in 0..dnum {
+                        cells.push(show_vec(g.at(row, col).data()));
+                    }
+                }
+            };
+            let mut cell_rank = rank;
+            match lay {
+                "gglwe" => {
+                    let enc = EncryptionLayout::new(gl(rank_in, rank, dsize), noise).unwrap();
+                    let mut g = GGLWE::alloc_from_infos(&gl(rank_in, rank, dsize));
+                    module.gglwe_encrypt_sk(&mut g, &pt, &skp, &enc, &mut xe, &mut xa, scratch.borrow());
+                    push_gglwe(&mut cells, &g.to_ref(), rank_in);
+                }
+                "ggsw" => {
+                    let enc = EncryptionLayout::new(ggsw_layout, noise).unwrap();
+                    let mut g = GGSW::alloc_from_infos(&ggsw_layout);
+                    module.ggsw_encrypt_sk(&mut g, &pt, &skp, &enc, &mut xe, &mut xa, scratch.borrow());
+                    for row in 0..dnum {
+                        for col in 0..rank + 1 {
+                            cells.push(show_vec(g.at(row, col).data()));
+                        }
+                    }
+                }
+                "ksk" => {
+                    let enc = EncryptionLayout::new(gl(rank_in, rank, dsize), noise).unwrap();
+                    let mut g = GLWESwitchingKey::alloc_from_infos(&gl(rank_in, rank, dsize));
+                    module.glwe_switching_key_encrypt_sk(&mut g, &sk_in, &sk, &enc, &mut xe, &mut xa, scratch.borrow());
+                    push_gglwe(&mut cells, &g.to_ref(), rank_in);
+                }
+                "atk" => {
+                    let enc = EncryptionLayout::new(gl(rank, rank, dsize), noise).unwrap();
+                    let mut g = GLWEAutomorphismKey::alloc_from_infos(&gl(rank, rank, dsize));
+                    module.glwe_automorphism_key_encrypt_sk(&mut g, p, &sk, &enc, &mut xe, &mut xa, scratch.borrow());
+                    push_gglwe(&mut cells, &g.to_ref(), rank);
+                }
+                "tsk" => {
+                    let enc = EncryptionLayout::new(gl(rank, rank, dsize), noise).unwrap();
+                    let mut g = GLWETensorKey::alloc_from_infos(&gl(rank, rank, dsize));
+                    module.glwe_tensor_key_encrypt_sk(&mut g, &sk, &enc, &mut xe, &mut xa, scratch.borrow());
+                    let gr = g.to_ref();
+                    let rin = { use poulpy_core::layouts::GGLWEInfos; gr.rank_in().as_usize() };
+                    push_gglwe(&mut cells, &gr, rin);
+                }
+                "g2g" => {
+                    let enc = EncryptionLayout::new(gl(rank, rank, dsize), noise).unwrap();
+                    let mut g = GGLWEToGGSWKey::alloc_from_infos(&gl(rank, rank, dsize));
+                    <Module<BE> as GGLWEToGGSWKeyEncryptSk<BE>>::gglwe_to_ggsw_key_encrypt_sk(&module, &mut g, &sk, &enc, &mut xe, &mut xa, scratch.borrow());
+                    for i in 0..rank {
+                        push_gglwe(&mut cells, &g.at(i).to_ref(), rank);
+                    }
+                }
+                "lksk" => {
+                    cell_rank = 1;
+                    let enc = EncryptionLayout::new(gl(1, 1, 1), noise).unwrap();
+                    let mut g = LWESwitchingKey::alloc(deg, bk, tk, Dnum(dnum as u32));
+                    module.lwe_switching_key_encrypt_sk(&mut g, &sk_lwe_in, &sk_lwe_out, &enc, &mut xe, &mut xa, scratch.borrow());
+                    push_gglwe(&mut cells, &g.to_ref(), 1);
+                }
+                "g2l" => {
+                    cell_rank = 1;
+                    let enc = EncryptionLayout::new(gl(rank_in, 1, 1), noise).unwrap();
+                    let mut g = GLWEToLWEKey::alloc(deg, bk, tk, Rank(rank_in as u32), Dnum(dnum as u32));
+                    module.glwe_to_lwe_key_encrypt_sk(&mut g, &sk_lwe_out, &sk_in, &enc, &mut xe, &mut xa, scratch.borrow());
+                    push_gglwe(&mut cells, &g.to_ref(), rank_in);
+                }
+                "l2g" => {
+                    let enc = EncryptionLayout::new(gl(1, rank, 1), noise).unwrap();
+                    let mut g = LWEToGLWEKey::alloc(deg, bk, tk, Rank(rank as u32), Dnum(dnum as u32));
+                    module.lwe_to_glwe_key_encrypt_sk(&mut g, &sk_lwe_in, &skp, &enc, &mut xe, &mut xa, scratch.borrow());
+                    push_gglwe(&mut cells, &g.to_ref(), 1);
+                }
+                _ => return "bad-layout".to_string(),
+            }
+            let total = cells.len() * cell_rank * size * n;
+            let mut s = Source::new(seed32(sxa));
+            let words: Vec<String> = (0..total).map(|_| (s.next_i64() as u64).to_string()).collect();
+            let mut xe3 = Source::new(seed32(sxe));
+            let errs: Vec<String> = (0..cells.len())
+                .map(|_| {
+                    let mut ev = VecZnx::alloc(n, 1, size);
+                    module.vec_znx_add_normal(b, &mut ev, 0, noise, &mut xe3);
+                    show_vec(&ev)
+                })
+                .collect();
+            let ints = |v: &[i64]| -> String { if v.is_empty() { "-".to_string() } else { v.iter().map(|x| x.to_string()).collect::<Vec<_>>().join(",") } };
+            format!(
+                "ok cells={} size={} sk={} skin={} sklwein={} sklweout={} pt={} words={} e={} obj={}",
+                cells.len(),
+                size,
+                show_scalar(&sk_vis),
+                show_scalar(&sk_in_vis),
+                ints(sk_lwe_in.raw()),
+                ints(sk_lwe_out.raw()),
+                show_scalar(&pt),
+                if words.is_empty() { "-".to_string() } else { words.join(",") },
+                errs.join(";"),
+                cells.join("/")
+            )
+        }
+    };
+}
+
+keys_backend!(keys_fft64ref, FFT64Ref);
+keys_backend!(keys_ntt120ref, NTT120Ref);
+keys_backend!(keys_fft64avx, FFT64Avx);
+keys_backend!(keys_ntt120avx, NTT120Avx);
+
 fn run_case(op: &str, t: &[&str]) -> String {
     let be = kv(t, "be").unwrap_or("fft64ref").to_string();
     let lay = kv(t, "layout").unwrap_or("glwe").to_string();
     let (sxs, sxa, sxe) = (kv_u64(t, "sxs"), kv_u64(t, "sxa"), kv_u64(t, "sxe"));
     let b = kv_us(t, "b");
     match op {
+        "keys" => match be.as_str() {
+            "ntt120ref" => keys_ntt120ref(&lay, t),
+            "fft64avx" => keys_fft64avx(&lay, t),
+            "ntt120avx" => keys_ntt120avx(&lay, t),
+            _ => keys_fft64ref(&lay, t),
+        },
         "masks" => {
             let (cells, _) = std_cells(&be, &lay, t, sxs, sxa, sxe, 1);
             let total: usize = cells.iter().map(|c| mask_words(c).len()).sum();
